@@ -8,8 +8,10 @@ import (
 
 // implObligations: behavioural subtyping. For every interface method with a contract and every
 // named type of the module that implements the interface and has a contract for that method:
-//   (interface requires && dyn(self)==T)  ==>  implementer requires
-//   implementer ensures                   ==>  interface ensures         (same arguments and result)
+//
+//	(interface requires && dyn(self)==T)  ==>  implementer requires
+//	implementer ensures                   ==>  interface ensures         (same arguments and result)
+//
 // and the iteration protocols (domain / match / args) must coincide.
 func (w *World) implObligations(prop string) (obls []*Obligation, funcs []string) {
 	var ikeys []string
